@@ -120,6 +120,20 @@ def main():
     res["dt"] = sha(sol.dynamics.dt)
     res["dynamics"] = {k: (None if getattr(sol.dynamics, k, None) is None else sha(getattr(sol.dynamics, k))) for k in ("mu", "theta", "screening_iterations")}
     res["times"] = sha(sol.times)
+    # "bit-identical meshes": one specification meshed, another device meshed in between, the first specification meshed again --
+    # in this same process (nothing of an earlier mesh generation may enter a later one)
+    def _spec_mesh(kind, **kw):
+        d_ = zoo.make_device(kind, np.random.default_rng(7), mesh=False)
+        d_.make_mesh(**kw)
+        return {"sites": sha(d_.mesh.sites), "elements": sha(d_.mesh.elements), "n": int(len(d_.mesh.sites))}
+
+    m_first = _spec_mesh("bar_hole", min_points=500, smooth=0)
+    _spec_mesh("ring", max_edge_length=0.35, smooth=2)
+    m_again = _spec_mesh("bar_hole", min_points=500, smooth=0)
+    m_third = _spec_mesh("bar_hole", max_edge_length=0.6, smooth=0)
+    _spec_mesh("bar", min_points=900, smooth=0)
+    m_third_again = _spec_mesh("bar_hole", max_edge_length=0.6, smooth=0)
+    res["remesh_in_process"] = {"first": [m_first, m_third], "again": [m_again, m_third_again]}
     # "repeating a simulation with identical inputs": once more in this same process, with the same objects
     import dataclasses
     opts2 = dataclasses.replace(opts, output_file=None)
